@@ -42,10 +42,12 @@ def readExactS : List IoEv → List Nat → Nat → Except DecErr (List Nat × S
     if data.length < n+1 then .error .eof else .ok (data.take (n+1), ⟨data.drop (n+1), []⟩)
   | .intr :: s, data, n+1 => readExactS s data (n+1)   -- `Err(e) if e.is_interrupted() => {}`
   | .chunk k :: s, data, n+1 =>
-    let m := min k (min (n+1) data.length)
+    -- the call hands out `min(k, buf.len(), remaining)` bytes
+    let got := data.take (min k (n+1))
+    let m := got.length
     if m = 0 then .error .eof                      -- `Ok(0) => break`, buffer not yet full
     else match readExactS s (data.drop m) (n+1-m) with
-      | .ok (bytes, r) => .ok (data.take m ++ bytes, r)
+      | .ok (bytes, r) => .ok (got ++ bytes, r)
       | .error e => .error e
 
 def SReader.readExact (n : Nat) : Parser SReader (List Nat) := fun r => readExactS r.sched r.data n
